@@ -152,10 +152,15 @@ class Token(str):
     ) -> list[Token]:
 
         l_ = str.split(self, sep, maxsplit)
-        pos = self.pos
+        offset = 0
         for i, s in enumerate(l_):
-            l_[i] = Token(s, pos, self.source, self.filename)
-            pos += len(s)
+            if sep is None:
+                # parts are separated by runs of whitespace
+                offset = str.find(self, s, offset)
+            l_[i] = Token(s, self.pos + offset, self.source, self.filename)
+            offset += len(s)
+            if sep is not None:
+                offset += len(sep)
         return cast('list[Token]', l_)
 
     def strip(self, chars: str | None = None, /) -> Token:
